@@ -9,6 +9,9 @@ FIRST = {
     "C07-9": "missed; trees with directories reachable by several routes (links to directories), judged by the harness's own link-following walk",
     "C08-9": "missed; stream depth_real (real directory-mode renames over trees with linked directories)",
     "C09-8": "generator extended (two-criteria incomparable sort expressions, a later incomparable pair) after reading the change and before the first trial",
+    "C13-7": "missed; aliases of more shapes in the enumerated registry (one context-optional tag, two tags, a pipe list)",
+    "C16-7": "missed; CLI trees with entries that are symbolic links to files kept in another directory",
+    "C15-10": "missed by C15 (an alias named like a built-in tag up to case); detected by C12's registry stream",
     "C01-1": "missed; plan universe extended (case-only / n/../a spellings)",
     "C03-1": "missed; prompt-observation oracle and manual_vs_flag stream added",
     "C07-1": "missed; several adjacent hidden directories per level",
